@@ -15,7 +15,7 @@
 (***************************************************************************)
 EXTENDS PlainMap, Json
 
-CONSTANTS Keys, Vals, MaxVal, IsSet, None, Rej, EK, TName
+CONSTANTS Keys, Vals, MaxVal, IsSet, None, Rej, EK, TName, NHeld
 
 VARIABLE act
 mcvars == <<vars, act>>
@@ -25,13 +25,22 @@ mcvars == <<vars, act>>
 HasAdd  == TName = "IntIntMap"
 HasWire == TName = "IntIntMap"
 HasNil  == TName = "IntKeyMap"
+\* put-all with another live object as the argument: the int-to-object map takes
+\* a map; the int-to-int map reads the wire form the other map wrote
+HasFrom == TName \in {"IntIntMap", "IntKeyMap"}
+\* NHeld > 0: the scope of TWO live objects (one held from the start).  The
+\* read-only calls are thinned there (every step of the replay is followed by
+\* the complete enumeration of both objects anyway).
+Pair == NHeld > 0
 
 Cfg == [t |-> TName, set |-> IsSet, none |-> None, rej |-> Rej, nil |-> HasNil, ek |-> EK]
 \* every value the scope can store / ask for (the nil object's code is in Vals
 \* in the int-to-object configuration)
 ValU == (0..MaxVal) \cup Vals
 
-MCInit == InitWith(Cfg) /\ act = <<"Init", 0, 0, <<>>, <<>>>>
+MCInit == /\ m = EmptyFn /\ cfg = Cfg /\ arrs = <<>>
+          /\ held = [i \in 1..NHeld |-> EmptyFn]
+          /\ act = <<"Init", 0, 0, <<>>, <<>>>>
 
 Lbl(n, k, v) == act' = <<n, k, v, <<>>, <<>>>>
 LblAll(ks, vs) == act' = <<"PutAll", 0, 0, ks, vs>>
@@ -48,10 +57,11 @@ PutAllArgs == {<<<<>>, <<>>>>}
               \cup {<<<<k, k>>, <<VHi, VLo>>>> : k \in Keys}
 
 InsertNames == {"Put", "Unipoint"}
-ReadNames == {"IsEmpty", "ToString", "ToFormatString", "Keys", "Values", "Entries", "KeyArray",
-              "ValueArray", "ToBytes", "RoundTrip"}
-MemberNames == {"Get", "ContainsKey", "Contains", "HasKey"}
-DirCount == 3
+ReadNames == IF Pair THEN {"Entries", "KeyArray", "ToBytes", "RoundTrip"}
+             ELSE {"IsEmpty", "ToString", "ToFormatString", "Keys", "Values", "Entries", "KeyArray",
+                   "ValueArray", "ToBytes", "RoundTrip"}
+MemberNames == IF Pair THEN {"Get", "Contains"} ELSE {"Get", "ContainsKey", "Contains", "HasKey"}
+DirCount == IF Pair THEN 1 ELSE 3
 
 MCNext ==
   \/ \E k \in Keys, v \in Vals, n \in InsertNames : Put(k, v) /\ Lbl(n, k, v)
@@ -65,10 +75,18 @@ MCNext ==
   \* (below) makes the replayer issue them from every reachable state
   \/ \E n \in ReadNames : ReadOnly /\ Lbl(n, 0, 0)
   \/ \E k \in Keys, n \in MemberNames : ReadOnly /\ Lbl(n, k, 0)
-  \/ \E v \in ValU \cup {MaxVal + 1} : ~IsSet /\ ReadOnly /\ Lbl("ContainsValue", 0, v)
+  \/ \E v \in ValU \cup {MaxVal + 1} : ~IsSet /\ ~Pair /\ ReadOnly /\ Lbl("ContainsValue", 0, v)
+  \* several live objects: calls go to the other object; put-all with the other
+  \* object (0: the object itself) as the argument
+  \/ \E h \in 1..Len(held) : Swap(h) /\ Lbl("Swap", h, 0)
+  \/ \E h \in 0..Len(held) : HasFrom /\ PutAllFrom(h) /\ Lbl("PutAllFrom", h, 0)
   \/ \E i \in 1..DirCount : ReadOnly /\ Lbl("Sort", i, 0)
 
 MCSpec == MCInit /\ [][MCNext]_mcvars
+
+SeqsUpTo(S, n) == UNION {[1..i -> S] : i \in 0..n}
+Injective(s) == \A i, j \in 1..Len(s) : s[i] = s[j] => i = j
+NK == Cardinality(Keys)
 
 \* ---- "behaves like a mathematical map" as action properties ------------------
 A == act'[1]
@@ -106,6 +124,20 @@ PutAllIsPutsA == A = "PutAll" => m' = SeqPut(m, act'[4], act'[5], 1)
 PutAllIsPuts == [][PutAllIsPutsA]_mcvars
 ReadOnlyKeepsA == A \in ReadNames \cup MemberNames \cup {"ContainsValue", "Sort"} => m' = m
 ReadOnlyKeeps == [][ReadOnlyKeepsA]_mcvars
+\* a call on one object changes no other live object; Swap only changes which
+\* object the calls are made on
+OthersKeptA == /\ A # "Swap" => held' = held
+               /\ A = "Swap" => (m' = held[K] /\ held'[K] = m /\ Len(held') = Len(held)
+                                 /\ \A i \in 1..Len(held) : i # K => held'[i] = held[i])
+OthersKept == [][OthersKeptA]_mcvars
+\* put-all from an object = its entries put one after the other, in whatever
+\* order they are enumerated
+PutAllFromIsPutsA ==
+  A = "PutAllFrom" =>
+    LET src == IF K = 0 THEN m ELSE held[K] IN
+    \A o \in {o \in SeqsUpTo(Keys, NK) : Injective(o) /\ Range(o) = DOMAIN src} :
+       m' = SeqPut(m, o, [i \in 1..Len(o) |-> src[o[i]]], 1)
+PutAllFromIsPuts == [][PutAllFromIsPutsA]_mcvars
 \* the size moves by at most one per point operation, and exactly as membership says
 SizeLawA == A \in PointOps =>
               Cardinality(DOMAIN m') - Cardinality(DOMAIN m) =
@@ -121,9 +153,6 @@ NilIsAValue == \A k \in Keys :
                  /\ ~Present(k) => Lookup(k) = None
 
 \* ---- the bag operators accept exactly the arrangements ----------------------
-SeqsUpTo(S, n) == UNION {[1..i -> S] : i \in 0..n}
-Injective(s) == \A i, j \in 1..Len(s) : s[i] = s[j] => i = j
-NK == Cardinality(Keys)
 KeysBagExact == \A s \in SeqsUpTo(Keys, NK) :
                    KeysBagOK(s) = (Injective(s) /\ Range(s) = Stored)
 \* a value sequence is accepted iff it is the value projection of some arrangement of the keys
@@ -160,11 +189,14 @@ WireRoundTrip ==
 NthKey(f, i) == CHOOSE k \in DOMAIN f : Cardinality({x \in DOMAIN f : x < k}) = i - 1
 KeySeq(f) == [i \in 1..Cardinality(DOMAIN f) |-> NthKey(f, i)]
 ValSeq(f) == [i \in 1..Cardinality(DOMAIN f) |-> f[NthKey(f, i)]]
-DumpT == PrintT(ToJson(<<"T", KeySeq(m), ValSeq(m), act', KeySeq(m'), ValSeq(m')>>))
+HeldSeq(hs) == [i \in 1..Len(hs) |-> <<KeySeq(hs[i]), ValSeq(hs[i])>>]
+DumpT == PrintT(ToJson(<<"T", KeySeq(m), ValSeq(m), act', KeySeq(m'), ValSeq(m'), HeldSeq(held), HeldSeq(held')>>))
 
 NoneNil  == <<>>
 \* the values of the int-to-object scope: the nil object, two other objects
 ObjVals  == {NilV, 0, 1}
+\* ... of the two-object scope: the nil object, one other object
+ObjVals2 == {NilV, 0}
 NoneZero == <<0>>
 View == vars
 =============================================================================
